@@ -91,7 +91,7 @@ def chain_program(rng):
             args = {'Resistor': {'R': v}, 'Conductance': {'G': 1 / v}, 'Impedance': {'Z': [v, -v / 2]}, 'Capacitor': {'C': 1 / (w * v)}, 'Inductance': {'L': v / w}}[kind]
             symbols.append({'sym': kind, 'name': next(names), 'reverse': False, 'args': args, **seg})
         if k < nseg - 1 and rng.random() < 0.4:
-            symbols.append({'sym': rng.choice(['Node', 'Node', 'LabelNode']), 'name': f'n{k}', 'at': list(path[k + 1])})
+            symbols.append({'sym': rng.choice(['Node', 'Node', 'LabelNode']), 'name': f'n{k}', 'at': list(path[k + 1]), 'hold': (k + len(symbols)) % 3 == 1})
     symbols.append({'sym': 'Ground', 'at': list(path[0])})
     return {'unit': rng.choice([3, 7, 2.5]), 'step': rng.choice([1.5, 3.0, 2.0]), 'offset': [0.0, 0.0], 'rot': 0, 'symbols': symbols, 'chain': True}, src_kind, w
 
@@ -133,6 +133,8 @@ def _build(prog, d, elm, placed):
                         e = getattr(e, 'right' if dx > 1e-9 else 'left' if dx < -1e-9 else 'up' if dy > 1e-9 else 'down')(math.hypot(dx, dy))
             elif 'at' in s:
                 e = e.at(phys(prog, s['at']))
+                if s.get('hold') and not prog.get('chain'):
+                    e = e.hold()
             else:
                 e = e.endpoints(phys(prog, s['p']), phys(prog, s['q']))
             d += e
@@ -289,7 +291,8 @@ def embed(rng, cdesc, grid=6, labels=None, ground=True, sym_of=None):
     for n, name in (labels or {}).items():
         if n in own and not (g and ground and g[0]['nodes'][0] == n):
             # the node's name is given by a labelled dot or (one in three) by the plain Node symbol that has no visible label
-            symbols.append({'sym': 'Node' if (len(name) + len(symbols)) % 3 == 0 else 'LabelNode', 'name': name, 'at': list(rng.choice(own[n]))})
+            symbols.append({'sym': 'Node' if (len(name) + len(symbols)) % 3 == 0 else 'LabelNode', 'name': name, 'at': list(rng.choice(own[n])),
+                            'hold': (len(name) + len(symbols)) % 4 == 1})          # placed without moving the drawing cursor
     if len(symbols) % 3 == 0:
         # junction dots without a name on up to two different nodes: they name nothing (and must not be read as one node)
         dots = [n for n in own if not (g and ground and g[0]['nodes'][0] == n) and n not in (labels or {})][:2]
